@@ -151,6 +151,13 @@ def check_c12(case):
     if api:
         tags.append("built-with-add_variable")
     pb = engine(build_api, pc) if api else nx.build_problem(pc)
+    if case.get("presolve"):
+        # a problem object on which a solver has already been built (and used) is still the same problem
+        tags.append("solver-built-before-split")
+        first = engine(nx.make_solver, pb, cfg, nx.needed_height(pc, cfg))
+        it = first.solve()
+        for _ in range(case["presolve"] - 1):
+            engine(lambda: next(it, None))
     before = _snapshot(pb)
     d = pc["idx"][var]
     a, b = pc["shr"][d]
@@ -227,7 +234,7 @@ def c12_case(draw, tier):
     var = draw(st.integers(0, nv - 1))
     d = pc["shr"][pc["idx"][var]]
     k = draw(st.integers(1, d[1] - d[0] + 4))
-    return {"problem": pc, "config": cfg, "var": var, "k": k, "api": draw(st.booleans())}
+    return {"problem": pc, "config": cfg, "var": var, "k": k, "api": draw(st.booleans()), "presolve": draw(st.sampled_from([0, 0, 1, 2, 3]))}
 
 
 CHECKS = {"C11": check_c11, "C12": check_c12}
